@@ -88,7 +88,7 @@ def register(R):
                 ("remainder", "exc.remaining_data == Resync(T, exc.consumed, separator)", "C02"),
                 ("limit-case",
                  "(first(T, separator) == -1 and exc.consumed == len(T) + 1 - len(separator) and exc.consumed > limit)"
-                 " or (first(T, separator) >= 0 and exc.consumed == first(T, separator) and exc.consumed > limit)", "C02 C07"),
+                 " or (first(T, separator) >= 0 and exc.consumed == first(T, separator) and exc.consumed > limit)", "C01 C02 C07"),
             ],
         },
         modifies=["self.__buffer"],
